@@ -225,3 +225,50 @@ mod test {
         assert_eq!(HEADER.as_ref(), buf);
     }
 }
+
+/// Verification hooks: the codecs over arbitrary `AsyncRead`/`AsyncWrite`.
+#[cfg(bmwill_anemo_verif)]
+pub mod verif {
+    use super::*;
+
+    pub fn codec(config: &Config) -> LengthDelimitedCodec {
+        network_message_frame_codec(config)
+    }
+
+    pub async fn read_version_frame<T: AsyncRead + Unpin>(recv_stream: &mut T) -> Result<Version> {
+        super::read_version_frame(recv_stream).await
+    }
+
+    pub async fn write_version_frame<T: AsyncWrite + Unpin>(
+        send_stream: &mut T,
+        version: Version,
+    ) -> Result<()> {
+        super::write_version_frame(send_stream, version).await
+    }
+
+    pub async fn write_request<T: AsyncWrite + Unpin>(
+        send_stream: &mut FramedWrite<T, LengthDelimitedCodec>,
+        request: Request<Bytes>,
+    ) -> Result<()> {
+        super::write_request(send_stream, request).await
+    }
+
+    pub async fn write_response<T: AsyncWrite + Unpin>(
+        send_stream: &mut FramedWrite<T, LengthDelimitedCodec>,
+        response: Response<Bytes>,
+    ) -> Result<()> {
+        super::write_response(send_stream, response).await
+    }
+
+    pub async fn read_request<T: AsyncRead + Unpin>(
+        recv_stream: &mut FramedRead<T, LengthDelimitedCodec>,
+    ) -> Result<Request<Bytes>> {
+        super::read_request(recv_stream).await
+    }
+
+    pub async fn read_response<T: AsyncRead + Unpin>(
+        recv_stream: &mut FramedRead<T, LengthDelimitedCodec>,
+    ) -> Result<Response<Bytes>> {
+        super::read_response(recv_stream).await
+    }
+}
